@@ -9,12 +9,12 @@ from loadsim import FsSim, make_enforcer, enc_defaults, observe, model_history, 
 GEN = ['GPolicy.v', 'GChecks.v', 'GParser.v']
 
 # layers in precedence order (later wins); the last two must be ignored
-LAYERS = ['default', 'main', 'policy.d/10-x.yaml', 'policy.d/2-y.json', 'policy.d/B.yaml', 'policy.d/_u.yaml',
+LAYERS = ['default', 'main', 'policy.d/-early.yaml', 'policy.d/10-x.yaml', 'policy.d/2-y.json', 'policy.d/B.yaml', 'policy.d/_u.yaml',
           'policy.d/a.yaml', 'policy.d/a.yaml~', 'policy.d/noext', 'second.d/a.yaml', 'second.d/z.txt',
           'policy.d/.hidden.yaml', 'policy.d/sub']
 # every regular file counts, whatever its name looks like (backup suffix, no extension, .txt): only dot-files and
 # sub-directories are ignored
-EFFECTIVE = LAYERS[:11]
+EFFECTIVE = LAYERS[:12]
 NAMES = ['alpha', 'beta']
 
 
@@ -32,7 +32,7 @@ def build(root, assign, main_present, fmts, dirs=None):
                 files.setdefault(l, {})[n] = 'role:' + l.replace('/', '_').replace('.', '_')
     if main_present:
         fs.write_main(files.get('main', {}), fmts.get('main', 'json'))
-    for l in LAYERS[2:12]:
+    for l in LAYERS[2:13]:
         d, fn = l.split('/')
         if l in files or l == 'policy.d/10-x.yaml':
             fs.write(d, fn, files.get(l, {}), 'yaml' if fmts.get(l) == 'yaml' else 'json')
@@ -60,9 +60,15 @@ def run(run, binfo):
     for r in range(len(LAYERS) + 1):
         subsets += [set(c) for c in itertools.combinations(LAYERS, r)]
     if tier == 'quick':
-        picks = subsets[::11]
+        picks = subsets[::23]
     else:
         picks = subsets[::2]
+    # small layouts exhaustively: every set of at most two layers, and every set of at most three that has the dot-file
+    # or the sub-directory in it (what must be ignored is ignored whatever its neighbours are called)
+    small = [set(c) for r in (1, 2) for c in itertools.combinations(LAYERS, r)]
+    small += [set(c) | {x} for x in ('policy.d/.hidden.yaml', 'policy.d/sub')
+              for c in itertools.combinations([l for l in LAYERS if l != x], 2)]
+    picks = small[::(1 if tier == 'thorough' else 2)] + picks
     cases = []
     for sub in picks:
         other = rng.choice(subsets)
